@@ -81,7 +81,7 @@ impl Gen {
 			1 => KernelFeatures::Coinbase,
 			2 => KernelFeatures::HeightLocked {
 				fee: self.fee(),
-				lock_height: self.rng.gen_range(0, 1 << 20),
+				lock_height: self.rng.gen_range(0, 3),
 			},
 			_ => KernelFeatures::NoRecentDuplicate {
 				fee: self.fee(),
